@@ -4,6 +4,7 @@ import (
 	"context"
 	"database/sql/driver"
 	"errors"
+	"strings"
 	"sync"
 
 	"qrynverif/chsim"
@@ -16,6 +17,8 @@ type Exec struct {
 	SQL string
 	Res *chsim.Result // nil on error
 	Err error         // chsim.ErrUnsupported / ErrSyntax / ErrExec (test with errors.Is)
+	// Rewritten: executed under Backend.HavingAsFilter (HAVING without aggregation as a filter).
+	Rewritten bool
 }
 
 // Backend answers the statements of the real reader from a chsim database: the two
@@ -27,9 +30,17 @@ type Exec struct {
 // database/sql wraps driver errors, so predicates should not rely on the error the reader
 // returns: inspect Log() (or FirstErr) instead.
 type Backend struct {
-	CH  *chsim.DB
-	mu  sync.Mutex
-	log []Exec
+	CH *chsim.DB
+	// HavingAsFilter selects the reading of the new ClickHouse analyzer (default since 24.3)
+	// for a SELECT that has HAVING but neither GROUP BY nor any function call in its select
+	// list: HAVING is a row filter (the old analyzer rejects such a statement with
+	// NOT_AN_AGGREGATE, which is why chsim itself refuses to choose and answers
+	// ErrUnsupported). qryn renders this shape for `topk(k, X) > v`. With the option on, such
+	// a statement is re-executed with the HAVING condition and-ed to WHERE (both are
+	// evaluated after ARRAY JOIN, both see the SELECT aliases); Exec.Rewritten marks it.
+	HavingAsFilter bool
+	mu             sync.Mutex
+	log            []Exec
 }
 
 // NewBackend wraps a chsim database.
@@ -42,8 +53,15 @@ func (b *Backend) Handler() fakesql.Handler {
 			return fakesql.AnswerVersion(q), nil
 		}
 		res, err := b.CH.Query(q)
+		rewritten := false
+		if err != nil && b.HavingAsFilter && errors.Is(err, chsim.ErrUnsupported) && strings.Contains(err.Error(), "HAVING without GROUP BY") {
+			if pq, perr := chsim.Parse(q); perr == nil && havingToWhere(pq) {
+				res, err = b.CH.Exec(pq)
+				rewritten = true
+			}
+		}
 		b.mu.Lock()
-		b.log = append(b.log, Exec{SQL: q, Res: res, Err: err})
+		b.log = append(b.log, Exec{SQL: q, Res: res, Err: err, Rewritten: rewritten})
 		b.mu.Unlock()
 		if err != nil {
 			return nil, err
@@ -89,4 +107,66 @@ func (b *Backend) Unsupported() bool {
 		}
 	}
 	return false
+}
+
+// plainExpr: column references, literals, tuple elements, array/map elements and aliases of
+// those — nothing that could be an aggregate function.
+func plainExpr(e chsim.Expr) bool {
+	switch x := e.(type) {
+	case *chsim.Ident, *chsim.Lit:
+		return true
+	case *chsim.Alias:
+		return plainExpr(x.X)
+	case *chsim.TupleElem:
+		return plainExpr(x.X)
+	case *chsim.Index:
+		return plainExpr(x.X) && plainExpr(x.I)
+	}
+	return false
+}
+
+// havingToWhere applies the HavingAsFilter reading to every SELECT of q that has HAVING, no
+// GROUP BY and a select list of plain expressions; reports whether anything changed.
+func havingToWhere(q *chsim.Query) bool {
+	if q == nil {
+		return false
+	}
+	if q.Select == nil {
+		l := havingToWhere(q.Left)
+		r := havingToWhere(q.Right)
+		return l || r
+	}
+	s := q.Select
+	changed := false
+	for i := range s.With {
+		if havingToWhere(s.With[i].Q) {
+			changed = true
+		}
+	}
+	if s.From != nil && havingToWhere(s.From.Sub) {
+		changed = true
+	}
+	for i := range s.Joins {
+		if s.Joins[i].Table != nil && havingToWhere(s.Joins[i].Table.Sub) {
+			changed = true
+		}
+	}
+	if s.Having != nil && len(s.GroupBy) == 0 {
+		plain := true
+		for _, c := range s.Cols {
+			if !plainExpr(c) {
+				plain = false
+			}
+		}
+		if plain {
+			if s.Where == nil {
+				s.Where = s.Having
+			} else {
+				s.Where = &chsim.Binary{Op: "AND", L: s.Where, R: s.Having}
+			}
+			s.Having = nil
+			changed = true
+		}
+	}
+	return changed
 }
